@@ -52,6 +52,7 @@ class StateModes:
         self.starting_jobs: bool = False
         self.stopping_jobs: bool = False
         self.instance_states: Dict[str, SupvisorsInstanceStates] = {}
+        self.update_mtime: float = 0.0
 
     @property
     def identifier(self):
@@ -91,6 +92,11 @@ class StateModes:
         :param payload: the Supvisors instance state and modes.
         :return: None.
         """
+        # the state and modes got during the handshake may be processed after a more recent publication
+        update_mtime = payload.get('now_monotonic', 0.0)
+        if update_mtime < self.update_mtime:
+            return
+        self.update_mtime = update_mtime
         self.state = SupvisorsStates(payload['fsm_statecode'])
         self.degraded_mode = payload['degraded_mode']
         self.discovery_mode = payload['discovery_mode']
